@@ -803,6 +803,7 @@ pub fn main(opts: &Opts) -> ! {
     extra.insert("determinism_rechecks".into(), json!(a.rechecks));
     extra.insert("runs_per_hour".into(), json!((done.len() as f64 / t0.elapsed().as_secs_f64() * 3600.0) as u64));
     extra.insert("faults_fired".into(), json!({"note": "the only nondeterminism is which pool task publishes first; slow/stalled pool tasks via the weighted/stall/pct schedulers", "stall scheduler": a.counters.get("scheduler_mix/stall")}));
+    extra.insert("stub_conformance".into(), stub_conformance());
     extra.insert("components".into(), json!({
         "real": ["mackay_neal::Config::{run, search}", "MacKayNeal", "peg::Config::run", "util::SortedRandomSel", "sparse BFS / girth", "rand::Rng (ChaCha8)"],
         "stub": ["rayon: Range<u64>::into_par_iter().filter_map().find_any() executed by simulated pool tasks (a stub of rayon's contract: returns a match if one exists, left-most published leaf wins)"],
